@@ -68,6 +68,17 @@ def f_ffprev(P, q):
 MEASURING = ("meas", "meas2")
 
 
+def f_delspare(P, q):
+    """a later segment deletes a mode it inherited (the third, otherwise idle, mode of the register)"""
+    ops.Del | P.reg_refs[2]
+
+
+def f_loss2(P, q):
+    """two adjacent channels of one family on one mode: merged by the optimiser"""
+    ops.LossChannel(0.7) | q[1]
+    ops.LossChannel(0.8) | q[1]
+
+
 def f_newdel(P, q):
     (r,) = ops.New(1)
     ops.Squeezed(0.2, 0.1) | r
@@ -93,7 +104,7 @@ def f_raise2(P, q):
     ops.Dgate(0.3 + 0.1j, 0.0).H | q[1]
 
 
-FRAGS = {"prep": f_prep, "dagger": f_dagger, "free": f_free, "meas": f_meas, "newdel": f_newdel, "loss": f_loss, "meas2": f_meas2, "ffprev": f_ffprev}
+FRAGS = {"prep": f_prep, "dagger": f_dagger, "free": f_free, "meas": f_meas, "newdel": f_newdel, "loss": f_loss, "meas2": f_meas2, "ffprev": f_ffprev, "delspare": f_delspare, "loss2": f_loss2}
 BAD = {"raise-unmeasured": f_raise, "raise-complex": f_raise2}
 
 
@@ -112,7 +123,7 @@ def new_engine(backend):
 
 def build(parent, frag_names, table=FRAGS):
     """A user program with the given fragments appended; parent is None (fresh 2-mode register) or a Program."""
-    P = sf.Program(2 if parent is None else parent)
+    P = sf.Program(3 if parent is None else parent)  # modes 0, 1 carry the fragments, mode 2 is a spare that may be deleted
     with warnings.catch_warnings():
         warnings.simplefilter("ignore")
         with P.context:
@@ -318,6 +329,8 @@ def expand(task):
             for f in ev[1:]:
                 if f == "ffprev" and not any(x in MEASURING for x in before):
                     skip = True
+                if f == "delspare" and "delspare" in before:
+                    skip = True  # a mode can be deleted once
                 before.append(f)
             if skip:
                 continue
